@@ -16,9 +16,9 @@ enum St {
     Valid,
 }
 
-struct RefLas {
-    ts: u8,
-    las: BTreeSet<u8>,
+pub struct RefLas {
+    pub ts: u8,
+    pub las: BTreeSet<u8>,
     st: St,
 }
 
@@ -32,7 +32,7 @@ fn in_range(x: u8, a: u8, b: u8) -> bool {
 }
 
 impl RefLas {
-    fn new(ts: u8) -> Self {
+    pub fn new(ts: u8) -> Self {
         RefLas {
             ts,
             las: [ts].into_iter().collect(),
@@ -50,7 +50,10 @@ impl RefLas {
         // nobody strictly between sa and da
         !self.las.iter().any(|x| *x != sa && in_range(*x, sa, da))
     }
-    fn witness(&mut self, sa: u8, da: u8) {
+    pub fn is_valid(&self) -> bool {
+        self.st == St::Valid
+    }
+    pub fn witness(&mut self, sa: u8, da: u8) {
         if sa > 125 || da > 125 {
             return;
         }
@@ -77,10 +80,10 @@ impl RefLas {
             St::Valid => self.update(sa, da),
         }
     }
-    fn ns(&self) -> u8 {
+    pub fn ns(&self) -> u8 {
         self.las.iter().copied().find(|a| *a > self.ts).or_else(|| self.las.iter().copied().next()).unwrap_or(self.ts)
     }
-    fn ps(&self) -> u8 {
+    pub fn ps(&self) -> u8 {
         self.las.iter().rev().copied().find(|a| *a < self.ts).or_else(|| self.las.iter().rev().copied().next()).unwrap_or(self.ts)
     }
 }
